@@ -217,7 +217,8 @@ theorem fields_of_obj (u : Universe) (fuel : Nat) (hobj : Pobj u fuel) (hfull : 
           simp only [toFields] at hk
           split at hk
           · rename_i he
-            rw [hk, toFields_lookup_absent u fuel fs vs py hd.1, he]
+            rw [hk, toFields_lookup_absent u fuel fs vs py hd.1, ← he]
+            rfl
           · rw [hk]; simp
         | obj _ => simp [ConfF] at hc
         | null => simp [ConfF] at hc
@@ -280,19 +281,26 @@ theorem C19_dict (u : Universe) (hu : WFU u) (fuel c : Nat) (v : V) (h : Conf u 
     fromDict u fuel c (toDict u fuel c v) = v :=
   (dict_rt u hu fuel).1 c v h
 
-/-- **C19 (elision)**: a numeric field equal to its declared default does not appear in the dictionary (under its python name,
-also when renamed); a null reference does not appear either -/
-theorem C19_elide (u : Universe) (fuel : Nat) (xo py : String) (dflt : Int) (fs : List (String × String × FK)) (vs : List V)
-    (hd : DistinctPy ((xo, py, .num dflt) :: fs)) :
-    (toFields u fuel ((xo, py, .num dflt) :: fs) (.num dflt :: vs)).lookup py = none := by
+/-- **C19 (elision)**: a numeric field - scalar or array - equal to its default does not appear in the dictionary (under its python
+name, also when renamed); a null reference does not appear either -/
+theorem C19_elide (u : Universe) (fuel : Nat) (xo py : String) (dflt : List Int) (fs : List (String × String × FK)) (vs : List V)
+    (hd : DistinctPy ((xo, py, .num (some dflt)) :: fs)) :
+    (toFields u fuel ((xo, py, .num (some dflt)) :: fs) (.num dflt :: vs)).lookup py = none := by
   simp only [toFields, ↓reduceIte]
   exact toFields_lookup_absent u fuel fs vs py hd.1
 
 /-- a value different from the default is stored under the python name -/
-theorem C19_stored (u : Universe) (fuel : Nat) (xo py : String) (dflt x : Int) (fs : List (String × String × FK)) (vs : List V)
+theorem C19_stored (u : Universe) (fuel : Nat) (xo py : String) (dflt x : List Int) (fs : List (String × String × FK)) (vs : List V)
     (hx : x ≠ dflt) :
-    (toFields u fuel ((xo, py, .num dflt) :: fs) (.num x :: vs)).lookup py = some (.num x) := by
-  simp [toFields, hx]
+    (toFields u fuel ((xo, py, .num (some dflt)) :: fs) (.num x :: vs)).lookup py = some (.num x) := by
+  have : ¬ (some x = some dflt) := fun h => hx (Option.some.inj h)
+  simp [toFields, this]
+
+/-- a field WITHOUT default (an array of dynamic shape) is always stored - also when it is empty (O-33) -/
+theorem C19_no_default_stored (u : Universe) (fuel : Nat) (xo py : String) (x : List Int) (fs : List (String × String × FK))
+    (vs : List V) :
+    (toFields u fuel ((xo, py, .num none) :: fs) (.num x :: vs)).lookup py = some (.num x) := by
+  simp [toFields]
 
 /-! ### JSON form -/
 
@@ -343,10 +351,11 @@ end
 the object's JSON form reproduces the object -/
 theorem C19_json (t : JT) (v : JV) (hw : JWF t) (hc : JConf t v) : ofJson t (toJson t v) = some v := json_rt t v hw hc
 
-/-! non-vacuity: Outer {s (py: ess) default 3, inner: Inner, r: Ref[Inner]}, Inner {a default 0} -/
+/-! non-vacuity: Outer {s (py: ess) default 3, inner: Inner, r: Ref[Inner]}, Inner {a default 0, arr: dynamic array, st: static array} -/
 example :
-    Conf [{ fields := [("a", "a", .num 0)] }, { fields := [("s", "ess", .num 3), ("inner", "inner", .obj 0), ("r", "r", .optobj 0)] }]
-      2 1 (.obj [.num 3, .obj [.num 7], .null]) := by
+    Conf [{ fields := [("a", "a", .num (some [0])), ("arr", "arr", .num none), ("st", "st", .num (some [0, 0]))] },
+          { fields := [("s", "ess", .num (some [3])), ("inner", "inner", .obj 0), ("r", "r", .optobj 0)] }]
+      2 1 (.obj [.num [3], .obj [.num [7], .num [], .num [0, 0]], .null]) := by
   simp [Conf, ConfF, clsOf]
 
 end DictF
